@@ -242,3 +242,56 @@ func Harness_LP() {
 		vhAssert(e.To.Layer-e.From.Layer >= 1, "every-edge-spans-at-least-one-layer")
 	}
 }
+
+// Harness_NS_HBalance (C04 lemma, the NetworkSimplex positioner's balancing): hbalance from an
+// ARBITRARY feasible tight spanning tree with symbolic layering, minimum lengths and weights keeps
+// every edge at its minimum length.
+func Harness_NS_HBalance() {
+	g, nodes := vhGraph()
+	for _, n := range nodes {
+		n.Layer = vhInt("layer", 0, 3*len(nodes))
+	}
+	for _, e := range g.Edges {
+		e.IsInSpanningTree = vhBool("tree")
+		e.Delta = vhInt("delta", 0, 3)
+		e.Weight = vhInt("weight", 0, 2)
+		vhAssume(slack(e) >= 0)
+		if e.IsInSpanningTree {
+			vhAssume(slack(e) == 0)
+		}
+	}
+	vhAssume(vhSpanningTree(g, nodes))
+	p := &networkSimplexProcessor{lim: make(graph.NodeIntMap), low: make(graph.NodeIntMap)}
+	p.setStreeValues(g.Nodes[0])
+	p.setCutValues(g)
+	p.hbalance(g)
+	vhReach("balanced")
+	for _, e := range g.Edges {
+		vhAssert(slack(e) >= 0, "hbalance-keeps-every-edge-at-its-minimum-length")
+	}
+}
+
+// Harness_NS_FeasibleTree (C03 / C10 / C04 lemma): the real feasibleTree (initLayers + tight-tree
+// growth) on a connected DAG cube with SYMBOLIC minimum lengths (0..3): it ends with a spanning
+// tree (exactly N-1 marked edges, connected) of tight edges and a feasible layering - the
+// invariant every pivot and the balancing steps rely on.
+func Harness_NS_FeasibleTree() {
+	g, nodes := vhGraph()
+	for _, e := range g.Edges {
+		e.Delta = vhInt("delta", 0, 3)
+	}
+	p := &networkSimplexProcessor{lim: make(graph.NodeIntMap), low: make(graph.NodeIntMap)}
+	p.feasibleTree(g)
+	vhReach("tree-built")
+	cnt := 0
+	for _, e := range g.Edges {
+		vhAssert(slack(e) >= 0, "every-edge-feasible")
+		if e.IsInSpanningTree {
+			cnt++
+			vhAssert(slack(e) == 0, "tree-edges-tight")
+		}
+	}
+	vhObserveInt("tree-edges", cnt)
+	vhAssert(cnt == len(nodes)-1, "tree-has-exactly-n-minus-1-edges")
+	vhAssert(vhSpanningTree(g, nodes), "marked-edges-form-a-spanning-tree")
+}
